@@ -1,12 +1,12 @@
-\* the code after the fix: ordered merge, no API reads leaked state -> Functional holds
+\* the code as it is, with the table-consulting emissions among the calls: the table is only read -> Functional and TableReadOnly hold
 SPECIFICATION Spec
 CONSTANTS
-  MaxSig = 3
+  MaxSig = 1
   MaxCalls = 2
   OrderedMerge = TRUE
   ReadsLeak = FALSE
   OrderedScan = TRUE
-  TableCalls = FALSE
+  TableCalls = TRUE
   Registers = FALSE
   Aliases = FALSE
 INVARIANT Functional
